@@ -281,6 +281,10 @@ def null_variants(T, rnd, limit=4):
     if not inner:
         return []
     pick = [inner[0]] + rnd.sample(inner[1:], min(len(inner) - 1, limit - 1))
+    # ... and every nested CONTAINER (a struct, map, slice or pointer target that is handed null while the
+    # document goes on with the members behind it)
+    conts = [sp for sp in inner if sp[1] - sp[0] > 1 and sp not in pick]
+    pick += conts[:8]
     out = []
     for b, e, _ in pick:
         out.append(st[:b] + [streams.ev("nil", "nil")] + st[e:])
